@@ -770,3 +770,73 @@ Proof. intros Hl H. apply injective_b_complete, Injective_injective; assumption.
 
 Lemma not_inv_witness sh st n idx : Forall2 N.lt idx sh -> n <= dot idx st -> ~ Inv sh st n.
 Proof. intros Hv Hle H. specialize (H idx Hv). lia. Qed.
+
+(* ------------------------------------------------------------ get_array / set_array *)
+Fixpoint bump (idx : list N) (dim : nat) (i : N) : list N :=
+  match idx, dim with
+  | [], _ => []
+  | b :: r, O => (b + i) :: r
+  | b :: r, S d => b :: bump r d i
+  end.
+
+Lemma bump_valid : forall idx sh dim i b sz, Forall2 N.lt idx sh ->
+  nth_error idx dim = Some b -> nth_error sh dim = Some sz -> b + i < sz ->
+  Forall2 N.lt (bump idx dim i) sh.
+Proof.
+  induction idx as [|x r IH]; intros sh dim i b sz Hv Hb Hs Hlt.
+  - destruct dim; discriminate.
+  - inversion Hv as [|? s ? sr Hx Hr]; subst. destruct dim as [|d]; cbn [bump nth_error] in *.
+    + inversion Hb; inversion Hs; subst. constructor; assumption.
+    + constructor; [assumption|]. eapply IH; eassumption.
+Qed.
+
+Lemma bump_dot : forall idx st dim i b s,
+  nth_error idx dim = Some b -> nth_error st dim = Some s ->
+  dot (bump idx dim i) st = dot idx st + i * s.
+Proof.
+  induction idx as [|x r IH]; intros st dim i b s Hb Hs.
+  - destruct dim; discriminate.
+  - destruct st as [|t tr]; [destruct dim; discriminate|].
+    destruct dim as [|d]; cbn [bump nth_error dot] in *.
+    + inversion Hs; subst. lia.
+    + rewrite (IH tr d i b s Hb Hs). lia.
+Qed.
+
+Lemma arr_loop_bound m off stride n : n <= two64 -> forall count i,
+  (forall j, i <= j < i + N.of_nat count -> off + j * stride < n) ->
+  exists l, arr_loop m off stride count i = Val l /\ Forall (fun o => o < n) l /\ length l = count.
+Proof.
+  intros Hn. induction count as [|c IH]; intros i H.
+  - exists []. repeat split. constructor.
+  - assert (Hi : off + i * stride < n) by (apply H; lia).
+    destruct (IH (i + 1)) as (l & El & Fl & Ll); [intros j Hj; apply H; lia|].
+    exists ((off + i * stride) :: l). cbn [arr_loop].
+    rewrite mul_m_exact by lia. cbn [bind]. rewrite add_m_exact by lia. cbn [bind].
+    rewrite El. cbn [bind]. repeat split; [constructor; assumption|cbn [length]; lia].
+Qed.
+
+Theorem array_offsets_in_bounds m shape strides n base dim M :
+  Inv shape strides n -> n <= two64 -> length shape = length strides ->
+  match array_offsets m shape strides base dim M with
+  | OffList l => Forall (fun o => o < n) l /\ length l = M
+  | PanicOverflow => False
+  | _ => True
+  end.
+Proof.
+  intros HI Hn Hl. unfold array_offsets.
+  destruct (nth_error base dim) as [b|] eqn:Eb; [|exact I].
+  destruct (nth_error shape dim) as [sz|] eqn:Es; [|exact I].
+  destruct (nth_error strides dim) as [st|] eqn:Et; [|exact I].
+  destruct ((b <? u64_max - N.of_nat M) && (b + N.of_nat M <=? sz)) eqn:C; [|exact I].
+  apply andb_true_iff in C as [_ C]. apply N.leb_le in C.
+  destruct (index_checked m KNd shape strides n base HI Hn ltac:(lia)) as [Hv Hnv].
+  cbn [offset_k] in Hv, Hnv.
+  destruct (nd_valid base shape) eqn:V.
+  - apply nd_valid_iff in V. destruct (Hv V) as [E Hlt]. rewrite E.
+    destruct (arr_loop_bound m (dot base strides) st n Hn M 0) as (l & El & Fl & Ll).
+    + intros j Hj. rewrite <- (bump_dot base strides dim j b st Eb Et).
+      apply HI. eapply bump_valid; try eassumption. lia.
+    + rewrite El. cbn [bind lift]. split; assumption.
+  - assert (Hn' : ~ Forall2 N.lt base shape) by (intros X; apply nd_valid_iff in X; congruence).
+    destruct (Hnv Hn') as [E|(_ & Ek & _)]; [rewrite E; exact I|discriminate].
+Qed.
